@@ -545,6 +545,9 @@ func (f *TF) ZExt(a *Term, w int) *Term {
 	if a.Op == OZext {
 		return f.ZExt(a.A[0], w)
 	}
+	if a.Op == OExtract && ub(a.A[0], 0) <= mask(int(a.W)) {
+		return f.resize(a.A[0], w)
+	}
 	return f.mk(OZext, w, int32(w-int(a.W)), 0, "", a)
 }
 func (f *TF) SExt(a *Term, w int) *Term {
@@ -556,6 +559,12 @@ func (f *TF) SExt(a *Term, w int) *Term {
 	}
 	if a.Op == OZext { // zero-extended value is non-negative
 		return f.ZExt(a.A[0], w)
+	}
+	if a.Op == OExtract && ub(a.A[0], 0) < uint64(1)<<uint(a.W-1) {
+		return f.resize(a.A[0], w)
+	}
+	if ub(a, 0) < uint64(1)<<uint(a.W-1) {
+		return f.ZExt(a, w)
 	}
 	return f.mk(OSext, w, int32(w-int(a.W)), 0, "", a)
 }
@@ -574,6 +583,17 @@ func (f *TF) Trunc(a *Term, w int) *Term {
 	}
 	return f.mk(OExtract, w, int32(w-1), 0, "", a)
 }
+// resize changes the width of a value known to fit in the target width (zero extension / truncation).
+func (f *TF) resize(a *Term, w int) *Term {
+	if w == int(a.W) {
+		return a
+	}
+	if w < int(a.W) {
+		return f.Trunc(a, w)
+	}
+	return f.ZExt(a, w)
+}
+
 func (f *TF) Bit(a *Term, i int) *Term {
 	if a.IsConst() {
 		return f.Bool((a.C>>uint(i))&1 == 1)
